@@ -5,19 +5,40 @@ package crosscheck
 // where the instrumented copy differs semantically from /repo; here the real
 // time.Now of the unmodified package reads the bubble's fake clock, which this
 // test advances with time.Sleep by seed-derived amounts.
+//
+// The engine is built twice, for the sandbox's own architecture and for
+// GOARCH=386: the width of Go's int is a property of the platform the library
+// runs on, a source of variation the instrumented workers (amd64 only) cannot
+// reach. Besides now()/toDay() every bubble therefore also reads the eight field
+// extractors on the bubble clock and builds one far civil date (years 1-9999)
+// whose fields and Unix milliseconds are compared with days-from-civil
+// arithmetic done in int64.
 
 import (
 	"context"
 	"encoding/json"
 	"fmt"
 	"os"
+	"runtime"
 	"strconv"
 	"testing"
 	"testing/synctest"
 	"time"
 
 	"github.com/aundis/formula"
+	"github.com/ericlagergren/decimal"
 )
+
+// numIs: a number inside an array result (a *decimal.Big; float64 tolerated) equals want.
+func numIs(v interface{}, want int64) bool {
+	switch x := v.(type) {
+	case *decimal.Big:
+		return x != nil && x.Cmp(decimal.New(want, 0)) == 0
+	case float64:
+		return x == float64(want)
+	}
+	return false
+}
 
 func envInt(k string, d int64) int64 {
 	if v := os.Getenv(k); v != "" {
@@ -63,7 +84,7 @@ func TestCross(t *testing.T) {
 		Detail string `json:"detail"`
 	}
 	var viols []viol
-	reads, crossings, zonesUsed := 0, 0, map[string]int{}
+	reads, crossings, farDates, zonesUsed := 0, 0, 0, map[string]int{}
 	var minClock, maxClock time.Time
 	savedLocal := time.Local
 	defer func() { time.Local = savedLocal }()
@@ -128,10 +149,59 @@ func TestCross(t *testing.T) {
 					viols = append(viols, viol{i, "synctest/today", fmt.Sprintf("toDay() = %v err=%v, bubble clock %v (zone %s)", v, err, want.In(loc), zn)})
 					return
 				}
+				// the field extractors on the bubble clock (it does not move between the calls)
+				text := "[millSecond(now()), year(now()), month(now()), day(now()), hour(now()), minute(now()), second(now()), weekDay(now())]"
+				v, err = evalOne(r, text)
+				reads++
+				arr, aok := v.([]interface{})
+				if err != nil || !aok || len(arr) != 8 {
+					viols = append(viols, viol{i, "synctest/extract-failed", fmt.Sprintf("%s = %v err=%v (zone %s)", text, v, err, zn)})
+					return
+				}
+				f := civilOf(want.In(loc))
+				wantF := []int64{want.Unix()*1000 + int64(want.Nanosecond())/1000000, f.Y, f.M, f.D, f.h, f.m, f.s, f.wd}
+				for j, nm := range []string{"millSecond", "year", "month", "day", "hour", "minute", "second", "weekDay"} {
+					if !numIs(arr[j], wantF[j]) {
+						viols = append(viols, viol{i, "synctest/field/" + nm, fmt.Sprintf("%s(now()) = %v, calendar oracle %d, bubble clock %v (zone %s, %s)", nm, arr[j], wantF[j], want.In(loc), zn, runtime.GOARCH)})
+						return
+					}
+				}
+				// one far civil date: local midnight, fields, Unix milliseconds
+				y, mo, dd := int64(1+sm(&st)%9999), int64(1+sm(&st)%12), int64(1+sm(&st)%28)
+				text = fmt.Sprintf("$d = date(%d, %d, %d), [millSecond($d), year($d), month($d), day($d), weekDay($d), hour($d)]", y, mo, dd)
+				v, err = evalOne(r, text)
+				farDates++
+				arr, aok = v.([]interface{})
+				cands := resolveLocal(daysFromCivil(y, mo, dd)*86400, loc)
+				if err != nil || !aok || len(arr) != 6 || len(cands) == 0 {
+					viols = append(viols, viol{i, "synctest/date-failed", fmt.Sprintf("%s = %v err=%v (zone %s)", text, v, err, zn)})
+					return
+				}
+				okMs := false
+				var at int64
+				for _, c := range cands {
+					if numIs(arr[0], c*1000) {
+						okMs, at = true, c
+					}
+				}
+				if !okMs {
+					viols = append(viols, viol{i, "synctest/date", fmt.Sprintf("%s: millSecond = %v, local midnight is at Unix second(s) %v (zone %s, %s)", text, arr[0], cands, zn, runtime.GOARCH)})
+					return
+				}
+				g := civilOf(time.Unix(at, 0).In(loc))
+				// the fields of the instant the library chose: where local midnight does not exist
+				// (a zone that springs forward at 00:00) it may lie at 23:00 of the day before
+				wantG := []int64{g.Y, g.M, g.D, g.wd, g.h}
+				for j, nm := range []string{"year", "month", "day", "weekDay", "hour"} {
+					if !numIs(arr[j+1], wantG[j]) {
+						viols = append(viols, viol{i, "synctest/field/" + nm, fmt.Sprintf("%s: %s = %v, calendar oracle %d (zone %s, %s)", text, nm, arr[j+1], wantG[j], zn, runtime.GOARCH)})
+						return
+					}
+				}
 			}
 		})
 	}
-	sum := map[string]interface{}{"from": from, "to": to, "clock_reads_checked": reads, "midnight_crossings_by_sleep": crossings, "zones": zonesUsed, "violations": viols}
+	sum := map[string]interface{}{"from": from, "to": to, "clock_reads_checked": reads, "midnight_crossings_by_sleep": crossings, "far_dates_checked": farDates, "goarch": runtime.GOARCH, "int_bits": strconv.IntSize, "zones": zonesUsed, "violations": viols}
 	if !minClock.IsZero() {
 		sum["clock_min"], sum["clock_max"] = minClock.UTC().Format(time.RFC3339), maxClock.UTC().Format(time.RFC3339)
 	}
